@@ -25,6 +25,7 @@ namespace worlds
     bool multi_ridge = false;            // oceanic plate: two oblique ridge segments offset along a transform fault, spreading velocity varying along them
     int slab_model = 0;                  // 0: plate model; 1: mass conserving; 2: mass conserving with a spline of 4 points
     bool second_slab = false;            // a second, short slab in the north-west (mass conserving, spline of 5 points) dipping west
+    bool water = false;                  // 'tian water content' composition models (temperature- and pressure-dependent) on the oceanic plate and the slab
     bool long_traces = false;            // three small faults and a small slab on long traces in different directions (along x, along y, diagonal)
     bool many_depth_points = false;      // the continental plate's max depth is given at 20 points in general position
     bool partial = false;                // features only partly replace what the features before them left: 'add' operations, slab / fault models limited to part of the thickness
@@ -80,7 +81,9 @@ namespace worlds
                 + (o.multi_ridge ? "\"spreading velocity\":[[0,[[0.03,0.05],[0.02,0.04]]]],\"ridge coordinates\":[[" + P(4.5,-6) + "," + P(4.0,0.25) + "],[" + P(3.0,-0.25) + "," + P(3.5,6) + "]]}]"
                    : "\"spreading velocity\":0.03,\"ridge coordinates\":[[" + P(4.5,-6) + "," + P(4.5,6) + "]]}]") +
                 ",\"composition models\":[{\"model\":\"uniform\",\"compositions\":[1,0],\"fractions\":[0.75,0.25]}" +
-                (o.random_models ? ",{\"model\":\"uniform\",\"compositions\":[3],\"operation\":\"replace defined only\"}" : "") + "]"
+                (o.random_models ? ",{\"model\":\"uniform\",\"compositions\":[3],\"operation\":\"replace defined only\"}" : "") +
+                (o.water ? ",{\"model\":\"tian water content\",\"compositions\":[1],\"lithology\":\"MORB\",\"initial water content\":1,\"cutoff pressure\":16,\"min depth\":2e3,\"max depth\":6e4,\"operation\":\"add\"}"
+                           ",{\"model\":\"tian water content\",\"compositions\":[0],\"lithology\":\"sediment\",\"initial water content\":3,\"cutoff pressure\":1,\"max depth\":2e3,\"operation\":\"replace defined only\"}" : "") + "]"
                 ",\"grains models\":[" + uniform_grains("[1]", 1, 25) + "]"
                 ",\"velocity models\":[{\"model\":\"uniform raw\",\"velocity\":[0.06,-0.01,0.002]}]}");
     f.push_back("{\"model\":\"plume\",\"name\":\"PL\",\"min depth\":2e4,\"max depth\":6e5,\"coordinates\":[" + P(-2,2) + "," + P(-2.2,2.1) + "," + P(-2.5,2.5) + "]"
@@ -95,7 +98,9 @@ namespace worlds
                 ",\"temperature models\":[" + (o.slab_model == 0 ? "{\"model\":\"plate model\",\"density\":3300,\"plate velocity\":0.02,\"adiabatic heating\":" + std::string(o.variant == 1 ? "false" : "true") + std::string(o.partial ? ",\"max distance slab top\":3.5e4" : "") + "}"
                                                 : "{\"model\":\"mass conserving\",\"density\":3300,\"spreading velocity\":0.05,\"subducting velocity\":0.05,\"ridge coordinates\":[[" + P(-4.5,-6) + "," + P(-4.5,6) + "]],\"coupling depth\":8e4,\"taper distance\":5e4,"
                                                 "\"min distance slab top\":-1e5,\"max distance slab top\":8e4" + std::string(o.slab_model == 2 ? ",\"apply spline\":true,\"number of points in spline\":4" : "") + "}") + "]"
-                ",\"composition models\":[{\"model\":\"uniform\",\"compositions\":[0,2],\"fractions\":[0.5,0.5]" + std::string(o.partial ? ",\"max distance slab top\":5e4" : "") + "}]"
+                ",\"composition models\":[{\"model\":\"uniform\",\"compositions\":[0,2],\"fractions\":[0.5,0.5]" + std::string(o.partial ? ",\"max distance slab top\":5e4" : "") + "}" +
+                (o.water ? ",{\"model\":\"tian water content\",\"compositions\":[1],\"density\":3300,\"lithology\":\"peridotite\",\"initial water content\":2,\"cutoff pressure\":10,\"max distance slab top\":5e4,\"operation\":\"replace defined only\"}"
+                           ",{\"model\":\"tian water content\",\"compositions\":[0],\"density\":3300,\"lithology\":\"gabbro\",\"initial water content\":0.5,\"cutoff pressure\":26,\"min distance slab top\":5e4,\"operation\":\"add\"}" : "") + "]"
                 ",\"grains models\":[" + uniform_grains("[0]", 1, 45) + "]"
                 ",\"velocity models\":[{\"model\":\"uniform raw\",\"velocity\":[0.03,0,-0.03]}]}");
     f.push_back("{\"model\":\"fault\",\"name\":\"FA\",\"coordinates\":[" + P(-4,-1) + "," + P(-1,-1.5) + "],\"dip point\":" + P(0,-20) +
